@@ -113,7 +113,9 @@ fn gen_desc(rng: &mut Lcg) -> Desc {
         let abc = ['a', 'b', 'c'];
         // escapes: a backslash before a character that is special neither to lex nor to the regex engine stands for that
         // character; \\x.. / \\u.... are handed to the regex engine
-        const ESCS: &[(&str, &str)] = &[("\\c", "c"), ("\\x61", "a"), ("\\xe9", "é"), ("\\u00e9", "é"), ("\\xE9", "é"), ("\\x63\\x62", "cb")];
+        const ESCS: &[(&str, &str)] = &[("\\c", "c"), ("\\x61", "a"), ("\\xe9", "é"), ("\\u00e9", "é"), ("\\xE9", "é"), ("\\x63\\x62", "cb"),
+            // x / u / U are only hex escapes when a hex digit follows: otherwise the backslash stands before a plain letter
+            ("\\xg", "xg"), ("\\u~", "u~"), ("\\Uz", "Uz"), ("c\\x", "cx"), ("\\x61\\xs", "axs")];
         // a backslash before a character that is special to the regex engine is kept (also inside a class, where `\-` is a
         // literal dash and `-` would make a range)
         const CLASSES: &[(&str, &str)] = &[("[a\\-c]+", "a-c"), ("[\\-a]+", "-a"), ("[c\\#\\&]+", "c#&"), ("[a\\~\\.]+", "a~.")];
@@ -284,9 +286,21 @@ const SRCS: &[&str] = &[
     "%%\na <+INITIAL>'x'\n",
 ];
 
+/// the rendered specification of a generated case
+fn gen_src(seed: u64) -> String { let mut rng = Lcg(seed); let d = gen_desc(&mut rng); render(&d) }
+
 pub fn search(tag: &str, tier: &str) -> Option<Value> {
     let want_header = tag.contains("whole_text");
     let mut other = None;
+    // text before the specification proper (a byte order mark, blank lines, spaces): whatever the parser makes of it,
+    // every span it reports must index the text as it was handed in
+    for pre in ["\u{feff}", "\u{feff}\n", "\n", " \n", "\t"] {
+        for s in SRCS.iter().map(|s| s.to_string()).chain((1..=40u64).map(gen_src)) {
+            let t = format!("{}{}", pre, s);
+            let o = run(&t);
+            if o.fails { return Some(witness("c11_spans", json!({"source": t}), &o)); }
+        }
+    }
     for s in SRCS {
         let o = run(s);
         if o.fails {
